@@ -285,13 +285,20 @@ def validate_scalar(value: Any, dtype: DataType) -> Any:
     if vtype is dtype.kind:
         return value
 
-    # Numeric coercions
+    # Numeric coercions (an int too large for a float is still a valid member of a
+    # float/complex column - inference accepts it - so it must not fail validation)
     if dtype.kind is float and vtype in (int, bool):
-        return float(value)
+        try:
+            return float(value)
+        except OverflowError:
+            return value
     if dtype.kind is int and vtype is bool:
         return int(value)
     if dtype.kind is complex and vtype in (int, float, bool):
-        return complex(value)
+        try:
+            return complex(value)
+        except OverflowError:
+            return value
 
     # Temporal promotion
     if dtype.kind is datetime and vtype is date:
